@@ -89,7 +89,7 @@ def targets(tier):
     k = 1 if tier == "quick" else 10
     return {"pairs_checked": 450 * k, "pairs_unequal_sizes": 180 * k, "pairs_cross_duplicates": 120 * k, "pairs_with_distance_ties": 80 * k,
             "nndvi_updates": 900 * k, "nndvi_drifts": 200 * k, "nndvi_unequal_pairs": 300 * k, "permutations_parsed": 10000 * k,
-            "nndvi_reference_kept": 300 * k}
+            "nndvi_reference_kept": 300 * k, "nndvi_k_exceeds_test_batch": 40 * k}
 
 
 def gen_pair(rng):
@@ -190,7 +190,8 @@ def run_nndvi(case, ctx):
         rng = gen.rng_for(case["seed"])
         d = int(rng.integers(1, 4))
         batches = gen.batch_sequence(rng, int(rng.integers(6, 16)), d, size=(6, 34), shift_p=0.4, dup_p=0.3, integer_p=0.25)
-        kw = dict(k_nn=int(rng.choice([1, 2, 3, 5])), sampling_times=int(rng.choice([10, 20, 40])), alpha=float(rng.choice([0.01, 0.05, 0.2, 0.4])))
+        # k from 1 up to well beyond the size of a single test batch (the neighbourhood is taken over the pooled points)
+        kw = dict(k_nn=int(rng.choice([1, 2, 3, 5, 8, 12, 20, 30])), sampling_times=int(rng.choice([10, 20, 40])), alpha=float(rng.choice([0.01, 0.05, 0.2, 0.4])))
     det = NNDVI(**kw)
     det.set_reference(batches[0].copy())
     ref = batches[0]
@@ -212,6 +213,8 @@ def run_nndvi(case, ctx):
                 ctx.count("nndvi_updates")
                 if len(ref) != len(X):
                     ctx.count("nndvi_unequal_pairs")
+                if kw["k_nn"] > len(X):
+                    ctx.count("nndvi_k_exceeds_test_batch")
                 if len(Recorder.built) != 1:
                     ctx.mark_inconclusive("update built %d partitioners (expected exactly one)" % len(Recorder.built))
                     return
